@@ -48,7 +48,24 @@ enable_queries()] and [first call || _invalidate_cache()] are enumerated, the re
 Judged against model/CachesInval.v under the same schedule and, on observations alone
 (CachesInvalTie.icheck): with queries enabled at the end a call made afterwards returns the
 fresh value with queries enabled; no call returns a value whose body started before the
-begin of an invalidation that had returned when the call began."""
+begin of an invalidation that had returned when the call began.
+
+THE CACHE KEY COMES FROM THE LIBRARY'S OWN get_terminal_size(): a share of the histories runs with
+`utils.get_terminal_size` NOT replaced, on a pty whose window (cells and pixels) is set with
+TIOCSWINSZ at every resize, in a process environment that holds COLUMNS / LINES absent / equal to
+the window at start-up (stale after the first resize) / different / not usable (0, negative, not
+a number), and changed in mid-history (op ENV); judged against model/CachesEnv.v (the window is the
+key, the environment is in the state: CachesEnvTie.echeck) and, on observations alone, against the
+twin's fresh values for the window the driver has set (the twin never sees the environment).
+
+THE CACHE HAND-OVER AT THE FIRST Process.start(): `utils._process_start_wrapper` (around a start
+that does not fork) is a third actor of the cooperative scheduler, next to win-size-swap toggles /
+enable_queries() and get_cell_size(), with parking points at every lock boundary of the old lock and
+of the shared array's lock, around the copy (`utils.Array`) and between the rebinding of the cache
+global and of the lock global (`get_lock()`); ALL interleavings of [Process.start() || toggle] are
+enumerated, the rest sampled; judged against model/CachesHand.v under the same schedule and, on
+observations alone, a get_cell_size() made after all threads have finished equals the twin's fresh
+value for the final setting (CachesHandTie.xcheck)."""
 from __future__ import annotations
 
 import copy
@@ -58,10 +75,11 @@ from concurrent.futures import ThreadPoolExecutor
 import core
 
 LEVEL = "proof"
-EXTRA_TARGETS = ["model/CachesTie.vo", "model/CachesInvalTie.vo"]
+EXTRA_TARGETS = ["model/CachesTie.vo", "model/CachesInvalTie.vo", "model/CachesEnvTie.vo", "model/CachesHandTie.vo"]
 
 HEADER = ("From Coq Require Import List ZArith Bool.\nImport ListNotations.\n"
           "From TI Require Import lib.Sched model.Caches model.CachesTie model.CachesInval model.CachesInvalTie.\n"
+          "From TI Require Import model.CachesEnv model.CachesEnvTie model.CachesHand model.CachesHandTie.\n"
           "Open Scope Z_scope.\n")
 
 CELLS = [(8, 16), (10, 20), (9, 18), (7, 15), (1, 1), (12, 24), (10, 20), (16, 32)]
@@ -242,6 +260,47 @@ def gen_case(rng, maxlen=20):
     return {"env": env, "t0": list(rng.choice(pool)), "ops": ops}
 
 
+def penv_value(rng, n):
+    """what COLUMNS / LINES may hold relative to the dimension n of the window at start-up"""
+    u = rng.random()
+    if u < 0.30:
+        return None                                   # absent
+    if u < 0.65:
+        return str(n)                                 # equal at start-up: STALE after the first resize
+    if u < 0.85:
+        return str(rng.choice([n + 20, max(1, n // 2), 1, 80, 24, 200]))   # different
+    return rng.choice(["0", "-5", "abc", "", "12x"])  # not usable (shutil ignores it)
+
+
+def gen_real_case(rng, i):
+    """a history run against the library's OWN get_terminal_size() on a pty, in a process environment holding
+    COLUMNS / LINES: built around [getter; resize of the window in cells (and pixels); getter]"""
+    base = gen_tsr_case(rng, 10) if i % 5 == 4 else gen_abort_case(rng, 10) if i % 5 == 3 else gen_case(rng, 10)
+    base["env"]["tty"] = 1
+    a = list(base["t0"])
+    while True:
+        bsz = gen_size(rng)
+        if bsz[0] != a[0] and bsz[1] != a[1]:
+            break
+    g = rng.choice(["CS", "CS", "CR", "TS", "TS"])
+    core_ops = [[g], ["R"] + bsz, [g]]
+    if rng.random() < 0.4:
+        core_ops += [["R"] + a, [g]]
+    if g == "CR":
+        core_ops = [["SR", "D"]] + core_ops
+    ops = base["ops"]
+    if rng.random() < 0.7:   # the pattern first: the entries are made at the start-up size
+        ops = core_ops + ops
+    else:
+        k = rng.randrange(len(ops) + 1)
+        ops = ops[:k] + core_ops + ops[k:]
+    for _ in range(rng.choice([0, 0, 1, 1, 2])):      # os.environ changes in mid-history
+        k = rng.randrange(len(ops) + 1)
+        t = rng.choice([a, bsz])
+        ops = ops[:k] + [["ENV", penv_value(rng, t[0]), penv_value(rng, t[1])]] + ops[k:]
+    return {"env": base["env"], "t0": a, "ops": ops, "real": {"COLUMNS": penv_value(rng, a[0]), "LINES": penv_value(rng, a[1])}}
+
+
 E0 = {"tty": 1, "io": 1, "xc": 1, "xa": 1, "xtname": [1, 1], "envname": [4, 3], "fg": 0xFF0000, "bg": 0x0000FF,
       "pres": 16, "mute": 0}
 E1 = dict(E0, io=0, xc=0, xa=1, xtname=[1, 1], envname=[0, 0], pres=19)
@@ -318,6 +377,31 @@ CORPUS = [
 ]
 
 
+_T80, _T100, _T160 = [80, 24, 800, 480], [100, 30, 800, 600], [160, 24, 800, 480]
+REAL_CORPUS = [
+    # COLUMNS / LINES equal to the window at start-up, then the window is resized: cell size, DYNAMIC ratio and the
+    # terminal_size_cached probe follow the window
+    {"env": E0, "t0": _T80, "real": {"COLUMNS": "80", "LINES": "24"},
+     "ops": [["CS"], ["TS"], ["SR", "D"], ["CR"], ["R"] + _T100, ["CS"], ["TS"], ["CR"], ["R"] + _T80, ["CS"], ["TS"], ["CR"],
+             ["R"] + _T160, ["CS"], ["TS"], ["CR"]]},
+    # one variable alone; the other dimension changes as well / only the pinned one changes
+    {"env": E0, "t0": _T80, "real": {"COLUMNS": "80", "LINES": None}, "ops": [["CS"], ["TS"], ["R"] + _T160, ["CS"], ["TS"]]},
+    {"env": E0, "t0": _T80, "real": {"COLUMNS": None, "LINES": "24"},
+     "ops": [["CS"], ["TS"], ["R", 80, 30, 800, 480], ["CS"], ["TS"], ["R"] + _T100, ["CS"], ["TS"]]},
+    # different from the window from the start; absent; not usable
+    {"env": E0, "t0": _T80, "real": {"COLUMNS": "132", "LINES": "43"}, "ops": [["CS"], ["TS"], ["R"] + _T100, ["CS"], ["TS"]]},
+    {"env": E1, "t0": _T80, "real": {"COLUMNS": None, "LINES": None}, "ops": [["CS"], ["TS"], ["R"] + _T100, ["CS"], ["TS"], ["ES"], ["CS"]]},
+    {"env": E0, "t0": _T80, "real": {"COLUMNS": "0", "LINES": "abc"}, "ops": [["CS"], ["TS"], ["R"] + _T100, ["CS"], ["TS"]]},
+    # the environment changes in mid-history: set after the entries were made / to the NEW size before the resize / removed
+    {"env": E0, "t0": _T80, "real": {"COLUMNS": None, "LINES": None},
+     "ops": [["CS"], ["TS"], ["ENV", "80", "24"], ["CS"], ["R"] + _T100, ["CS"], ["TS"], ["ENV", "100", "30"], ["R"] + _T80, ["CS"], ["TS"],
+             ["ENV", None, None], ["CS"], ["TS"]]},
+    # the terminal is queried (no pixel size from the ioctl); a resize landing in the probe's body; an aborted computation
+    {"env": E2, "t0": _T80, "real": {"COLUMNS": "80", "LINES": "24"},
+     "ops": [["CS"], ["R"] + _T100, ["CSA", "kbd"], ["CS"], ["TSR"] + _T160, ["TS"], ["DQ"], ["R"] + _T80, ["CS"], ["EQ"], ["CS"]]},
+]
+
+
 ABORTED = {v: k for k, v in ABORTS.items()}
 
 
@@ -357,6 +441,32 @@ def zl(l):
     return core.coq_list(l, core.z)
 
 
+def penv_int(v):
+    """COLUMNS / LINES as shutil reads them: int(value), else unusable (the generator only writes plain decimal
+    numerals or non-numbers)"""
+    try:
+        return "(Some %s)" % core.z(int(v))
+    except (TypeError, ValueError):
+        return "None"
+
+
+def penv_term(c, l):
+    return "{| pe_cols := %s; pe_lines := %s |}" % (penv_int(c), penv_int(l))
+
+
+def eop_term(o):
+    return "EnvSet " + penv_term(o[1], o[2]) if o[0] == "ENV" else "Op (%s)" % op_term(o)
+
+
+def ecase_term(c, r):
+    rows = [x for o, x in zip(c["ops"], r["rows"]) if o[0] != "ENV"]
+    return ("{| ec_env := %s; ec_pe := %s; ec_t0 := %s; ec_ops := %s; ec_obs := %s; ec_fc := %s; ec_fe := %s |}" % (
+        env_term(c["env"]), penv_term(c["real"].get("COLUMNS"), c["real"].get("LINES")), tsize(c["t0"]),
+        core.coq_list(c["ops"], eop_term),
+        core.coq_list(rows, lambda x: "(%s, %s)" % (zl(x["obs"]), zl(x["n"]))),
+        core.coq_list(rows, lambda x: zl(x["fc"])), core.coq_list(rows, lambda x: zl(x["fe"]))))
+
+
 def case_term(c, r):
     rows = r["rows"]
     return ("{| t_env := %s; t_t0 := %s; t_ops := %s; t_obs := %s; t_fc := %s; t_fe := %s |}" % (
@@ -365,15 +475,28 @@ def case_term(c, r):
         core.coq_list(rows, lambda x: zl(x["fc"])), core.coq_list(rows, lambda x: zl(x["fe"]))))
 
 
-def evaluate(cases, tag="c15"):
-    """-> (codes, side_ok flags, errors, impl results)"""
-    impl = core.run_impl_parallel("impl_c15.py", cases)
-    terms = [case_term(c, r) for c, r in zip(cases, impl)]
-    rep, errors = core.coq_shards(tag, HEADER, terms, "tcase", "report cases", shard=60)
+def evaluate(cases, tag="c15", impl=None):
+    """-> (codes, side_ok flags, errors, impl results); histories with a "real" part are judged by CachesEnvTie"""
+    if impl is None:
+        impl = core.run_impl_parallel("impl_c15.py", cases)
+    plain = [i for i, c in enumerate(cases) if c.get("real") is None]
+    real = [i for i, c in enumerate(cases) if c.get("real") is not None]
+
+    def part(idx, term, ctype, expr, sfx):
+        if not idx:
+            return [], []
+        rep, errs = core.coq_shards(tag + sfx, HEADER, [term(cases[i], impl[i]) for i in idx], ctype, expr, shard=60)
+        if len(rep) != len(idx) and not errs:
+            errs.append(f"Coq reported {len(rep)} results for {len(idx)} cases")
+        return [(idx[k], v) for k, v in rep], errs
+
+    with ThreadPoolExecutor(max_workers=2) as ex:
+        f1 = ex.submit(part, plain, case_term, "tcase", "report cases", "")
+        f2 = ex.submit(part, real, ecase_term, "ecase", "ereport cases", "e")
+        (rep1, err1), (rep2, err2) = f1.result(), f2.result()
+    errors = err1 + err2
     codes, side = [0] * len(cases), [0] * len(cases)
-    if len(rep) != len(cases) and not errors:
-        errors.append(f"Coq reported {len(rep)} results for {len(cases)} cases")
-    for idx, v in rep:
+    for idx, v in rep1 + rep2:
         codes[idx], side[idx] = v % 10, v // 10
     return codes, side, errors, impl
 
@@ -394,6 +517,14 @@ def shrink(case):
         if nxt is None or errors:
             break
         cur = nxt
+    if cur.get("real") is not None:   # the environment: drop the variables that are not needed
+        for k in ("COLUMNS", "LINES"):
+            if cur["real"].get(k) is not None:
+                c = copy.deepcopy(cur)
+                c["real"][k] = None
+                codes, _, errors, _ = evaluate([c], tag="c15s")
+                if not errors and codes[0] >= 2:
+                    cur = c
     # canonical presentation (does not affect the model): try the plainest one
     plain = copy.deepcopy(cur)
     plain["env"]["pres"], plain["env"]["mute"] = 16, 0
@@ -410,6 +541,8 @@ def describe(c):
     def one(o):
         if o[0] == "R":
             return "resize(%dx%d,%dx%dpx)" % tuple(o[1:5])
+        if o[0] == "ENV":
+            return "os.environ[COLUMNS=%r,LINES=%r]" % (o[1], o[2])
         if o[0] == "TSR":
             return "size_cached_probe!resize(%dx%d,%dx%dpx)-during-body" % tuple(o[1:5])
         if o[0] == "SR":
@@ -422,7 +555,11 @@ def describe(c):
         return {"ES": "enable_swap", "DS": "disable_swap", "EQ": "enable_queries", "DQ": "disable_queries",
                 "CS": "get_cell_size", "CR": "get_cell_ratio", "NV": "get_terminal_name_version",
                 "K": "_is_on_kitty", "TS": "size_cached_probe", "CO": "get_fg_bg_colors[%s]" % (o[1] if len(o) > 1 else 0)}[o[0]]
-    return "term[%s xt=%s env=%s] %dx%d %dx%dpx: %s" % (caps, e["xtname"], e["envname"], *c["t0"], ", ".join(map(one, c["ops"])))
+    real = ""
+    if c.get("real") is not None:
+        real = "REAL get_terminal_size() on a pty, COLUMNS=%r LINES=%r; " % (c["real"].get("COLUMNS"), c["real"].get("LINES"))
+    return "%sterm[%s xt=%s env=%s] %dx%d %dx%dpx: %s" % (real, caps, e["xtname"], e["envname"], *c["t0"],
+                                                         ", ".join(map(one, c["ops"])))
 
 
 def fresh_cases(cases, impl, limit):
@@ -448,12 +585,16 @@ def run_fresh(fcs):
     return bad, errors, res
 
 
-def run_races(rng, quick):
+def gen_races(rng, quick):
     races = []
     for fn in ["nv", "co", "k", "cs", "probe"]:
         for n in ([2, 3] if quick else [2, 3, 3, 4]):
             races.append({"threads": n, "fn": fn, "env": dict(E0, pres=rng.randrange(32)), "t0": [80, 24, 800, 480],
                           "rounds": 2})
+    return races
+
+
+def run_races(races):
     res = core.run_impl_parallel("impl_c15.py", races, chunk=2)
     terms = []
     for c, r in zip(races, res):
@@ -873,146 +1014,446 @@ def describe_inval(c, trace=None):
     return txt
 
 
-def run_probes_and_swaps(ctx, rng, only=None):
-    """-> (mismatches, failures, errors, extra)"""
+# ------------------------------------- the cache hand-over at the first Process.start()
+
+HD_SWAP = [(dict(E0, xc=0), [80, 24, 800, 960]), (dict(E1), [100, 30, 1000, 600]), (dict(E0, io=0, xc=0, xa=1, pres=3), [80, 24, 1000, 487])]
+HD_QUERIES = [(dict(E0, io=0, xc=1), [80, 24, 800, 480]), (dict(E0, io=0, xc=0, xa=1, pres=9), [100, 30, 1000, 600])]
+HD_PICKS = {"T": 4, "S": 7, "G": 9}   # picks a command takes at most
+
+
+def hd_counts(progs):
+    return [sum(HD_PICKS[c[0]] for c in p) for p in progs]
+
+
+def hd_tail(progs):
+    """picks that finish every thread whatever was wasted on blocked picks before (two rounds, see iv_tail)"""
+    return [t for t, n in enumerate(hd_counts(progs)) for _ in range(n)] * 2
+
+
+def hd_case(kind, k, f0, warm, progs, head):
+    env, t0 = (HD_SWAP if kind == "swap" else HD_QUERIES)[k]
+    return {"hand": {"kind": kind, "env": env, "t0": t0, "f0": f0, "warm": warm, "progs": progs,
+                     "sched": list(head) + hd_tail(progs), "head": len(head)}}
+
+
+def hd_corpus():
+    """boundary schedules, run first"""
+    st, ts = [[["S"]], [["T", 1]]], HD_PICKS["T"]
+    out = []
+    for kind in ("swap", "queries"):
+        # the toggle runs — as far as it gets — when the start is: not begun / about to acquire / inside, about to
+        # test / about to copy / has copied / has rebound the cache global / about to release / done
+        for n in range(0, 8):
+            out.append(hd_case(kind, 0, 0, 1, st, [0] * n + [1] * ts + [0] * (7 - n)))
+        # ... the start runs when the toggle has: written the flag and evaluated the lock / acquired / cleared
+        for n in (1, 2, 3):
+            out.append(hd_case(kind, 0, 0, 1, st, [1] * n + [0] * 7 + [1] * (ts - n)))
+        # ... the toggle is blocked on the OLD lock across the whole hand-over
+        out.append(hd_case(kind, 0, 0, 1, st, [0, 0, 1, 1, 0, 1, 0, 1, 0, 1, 0, 0, 1, 1, 1]))
+    # get_cell_size() around the hand-over: served from the array; computing while the start waits; holding the old
+    # lock when the globals are rebound (its second lock expression)
+    sg = [[["S"]], [["G"], ["G"]]]
+    out.append(hd_case("swap", 0, 0, 1, sg, [0] * 7 + [1] * 12))
+    out.append(hd_case("swap", 0, 0, 0, sg, [1, 1, 0, 1, 0, 1, 1, 0, 1, 0, 0, 0, 0, 0, 0, 1, 1, 1, 1, 1, 1]))
+    out.append(hd_case("swap", 0, 1, 0, sg, [0, 0, 1, 0, 0, 0, 0, 1, 1, 1, 0, 1, 1, 1, 1, 1, 1]))
+    out.append(hd_case("swap", 0, 0, 1, [[["S"], ["S"]], [["T", 1], ["G"]]], [0] * 7 + [1] * 4 + [0] * 4 + [1] * 9))
+    # two starters and a toggle; a toggle there and back
+    out.append(hd_case("swap", 0, 0, 1, [[["S"]], [["S"]], [["T", 1]]], [0, 1, 0, 2, 0, 2, 0, 1, 0, 2, 0, 2, 1, 1, 1, 1]))
+    out.append(hd_case("swap", 0, 0, 1, [[["S"]], [["T", 1], ["T", 0]], [["G"]]], [0, 0, 1, 2, 0, 1, 0, 2, 1, 0, 0, 1, 2, 2, 1, 1, 2, 2, 1, 1, 2]))
+    return out
+
+
+def hd_random(rng, i):
+    kind = "queries" if i % 4 == 3 else "swap"
+    tg = [["T", 1]] if kind == "queries" else rng.choice([[["T", 1]], [["T", 1]], [["T", 0]], [["T", 1], ["T", 0]], [["T", 0], ["T", 1]]])
+    f0 = 0 if kind == "queries" else int(rng.random() < 0.3)
+    shapes = [
+        [[["S"]], tg, [["G"]]],
+        [[["S"]], tg, [["G"], ["G"]]],
+        [[["S"], ["G"]], tg],
+        [[["S"]], tg + [["G"]]],
+        [[["S"]], tg, [["S"]]],
+        [[["G"], ["S"]], tg],
+        [[["S"]], [["G"], ["G"]]],
+        [[["S"]], tg, [["T", 1]] if kind == "queries" else [["T", rng.randrange(2)]]],
+    ]
+    progs = rng.choice(shapes)
+    head = [t for t, n in enumerate(hd_counts(progs)) for _ in range(n)]
+    rng.shuffle(head)
+    return hd_case(kind, rng.randrange(len(HD_SWAP if kind == "swap" else HD_QUERIES)), f0, int(rng.random() < 0.7), progs, head)
+
+
+def all_hands(rng, quick):
+    cases = hd_corpus()
+    n_corpus = len(cases)
+    # EVERY interleaving of the picks of [Process.start() || a toggle] on a warm cache
+    full = [("swap", 0, [[["S"]], [["T", 1]]])]
+    if not quick:
+        full += [("queries", 0, [[["S"]], [["T", 1]]]), ("swap", 1, [[["S"]], [["T", 0]]])]
+    for kind, f0, progs in full:
+        for head in unit_perms([[1] * n for n in hd_counts(progs)]):
+            cases.append(hd_case(kind, 0, f0, 1, progs, head))
+    n_full = len(cases) - n_corpus
+    for i in range(100 if quick else 4000):
+        cases.append(hd_random(rng, i))
+    return cases, n_full
+
+
+def xcmd_term(c):
+    return {"T": "XToggle " + b(c[1] if len(c) > 1 else 1), "G": "XGet", "S": "XStart"}[c[0]]
+
+
+def hand_term(c, r):
+    hd = c["hand"]
+    nat = lambda x: "%d%%nat" % x  # noqa: E731
+    return ("{| xc_f0 := %s; xc_warm := %s; xc_progs := %s; xc_sched := %s; xc_flag := %s; xc_cache := %s; xc_shared := %s; "
+            "xc_lockshared := %s; xc_rets := %s; xc_ncomp := %d%%nat; xc_after := %s; xc_fresh := %s |}" % (
+                b(hd["f0"]), b(hd["warm"]), core.coq_list(hd["progs"], lambda p: core.coq_list(p, xcmd_term)),
+                core.coq_list(hd["sched"], nat), b(r["flag"]), core.z(r["cache"]), b(r["shared"]), b(r["lockshared"]),
+                core.coq_list(r["rets"], zl), r["ncomp"], zl(r["after"]), zl(r["fresh"])))
+
+
+def eval_hands(cases, tag="c15h"):
+    impl = core.run_impl_parallel("impl_c15.py", cases, chunk=max(60, (len(cases) + 7) // 8))
+    rep, errors = core.coq_shards(tag, HEADER, [hand_term(c, r) for c, r in zip(cases, impl)], "xcase",
+                                  "xreport cases", shard=120)
+    codes = [0] * len(cases)
+    if len(rep) != len(cases) and not errors:
+        errors.append(f"Coq reported {len(rep)} results for {len(cases)} hand-over schedules")
+    for idx, v in rep:
+        codes[idx] = v
+    for i, (c, r) in enumerate(zip(cases, impl)):
+        if r["errors"] or r["stuck"]:
+            errors.append("hand-over schedule %s: %s stuck=%d" % (describe_hand(c), r["errors"], r["stuck"]))
+        if not r["distinct"]:
+            errors.append("hand-over schedule on a terminal whose values for the two settings coincide: %r" % c["hand"]["env"])
+        if r["drained"] and not codes[i]:
+            codes[i] = 1       # the real threads had parking points left where the model had finished
+    return codes, errors, impl
+
+
+def shrink_hand(case):
+    """drop whole commands (their picks stay, as no-ops), the pre-existing entry, then single picks of the interleaved
+    part — latest first — while the observations still contradict the specification"""
+    cur = case
+    for _ in range(60):
+        hd = cur["hand"]
+        cands = []
+        for t in range(len(hd["progs"])):
+            for j in range(len(hd["progs"][t])):
+                if sum(len(p) for p in hd["progs"]) > 1:
+                    c = copy.deepcopy(cur)
+                    del c["hand"]["progs"][t][j]
+                    cands.append(c)
+        for k in reversed(range(hd["head"])):
+            c = copy.deepcopy(cur)
+            del c["hand"]["sched"][k]
+            c["hand"]["head"] = hd["head"] - 1
+            cands.append(c)
+        if not cands:
+            break
+        codes, errors, impl = eval_hands(cands, tag="c15hs")
+        nxt = next((c for c, code, r in zip(cands, codes, impl) if code >= 2 and r["drained"] <= 1), None)
+        if nxt is None or errors:
+            break
+        cur = nxt
+    while cur["hand"]["progs"] and not cur["hand"]["progs"][-1]:
+        cur["hand"]["progs"].pop()
+    return cur
+
+
+def describe_hand(c, trace=None):
+    hd = c["hand"]
+
+    def cmd(x):
+        if x[0] == "T":
+            if hd["kind"] == "queries":
+                return "enable_queries()"
+            return "enable_win_size_swap()" if x[1] else "disable_win_size_swap()"
+        return {"G": "get_cell_size()", "S": "Process.start()"}[x[0]]
+    txt = "%s %s, cell-size cache %s, %dx%d %dx%dpx: %s; picks %s (| the finishing tail); then get_cell_size() from the main thread" % (
+        "win-size swap" if hd["kind"] == "swap" else "queries", "on" if hd["f0"] else "off", "warm" if hd["warm"] else "cold", *hd["t0"],
+        "; ".join("thread %d: %s" % (t, ", ".join(map(cmd, p))) for t, p in enumerate(hd["progs"])),
+        "".join(map(str, hd["sched"][:hd["head"]])) + "|" + "".join(map(str, hd["sched"][hd["head"]:])))
+    if trace:
+        txt += " [" + " ".join("%d:%s>%s" % tuple(x) for x in trace if x[1] != "done") + "]"
+    return txt
+
+
+def gen_parts(rng, quick):
+    """the cases of the parts beside the histories, generated in a fixed order from the one random source"""
+    pcases = copy.deepcopy(PROBE_CORPUS) + [gen_probe(rng) for _ in range(150 if quick else 3000)]
+    scases = all_swaps(rng, quick)
+    icases, n_full = all_invals(rng, quick)
+    hcases, h_full = all_hands(rng, quick)
+    return {"probe": pcases, "swap": scases, "inval": (icases, n_full), "hand": (hcases, h_full)}
+
+
+def probe_part(pcases, only=False):
     mismatches, failures, errors, extra = [], [], [], {}
-    secs = extra.setdefault("seconds", {})
     t0 = time.time()
-    if only is None or "probe" in only:
-        pcases = [only] if only else copy.deepcopy(PROBE_CORPUS) + [gen_probe(rng) for _ in range(150 if ctx.quick else 3000)]
-        codes, perr, impl = eval_probes(pcases)
-        errors += perr
-        none_again = 0
-        for c, r in zip(pcases, impl):
-            seen = set()
-            for o, row in zip(c["probe"]["cmds"], r["rows"]):
-                if o[0] == "I":
-                    seen = set()
-                elif o[1] in seen:
-                    none_again += c["probe"]["res"][o[1]] < 0
-                else:
-                    seen.add(o[1])
-        extra["probe_histories"] = len(pcases)
-        extra["probe_calls_again_in_epoch_with_result_None"] = none_again
-        done = 0
-        for c, code, r in zip(pcases, codes, impl):
-            if code >= 2:
-                small = shrink_probe(c) if done < 1 else c
-                done += 1
-                if done > 3:
-                    continue
-                codes2, _, impl2 = eval_probes([small], tag="c15ps")
-                failures.append({
-                    "signature": core.sig(small),
-                    "what": "a function memoised by utils.cached ran its body more than once for one argument tuple within "
-                            "one invalidation epoch (or returned something else than the body's result): " + describe_probe(small),
-                    "replay": {"probe": small["probe"], "observed": impl2[0], "code": codes2[0]}})
-            elif code:
-                mismatches.append({"probe": c["probe"], "code": code, "observed": r})
-    secs["probe_histories"] = round(time.time() - t0, 1)
+    codes, perr, impl = eval_probes(pcases)
+    errors += perr
+    none_again = 0
+    for c, r in zip(pcases, impl):
+        seen = set()
+        for o, row in zip(c["probe"]["cmds"], r["rows"]):
+            if o[0] == "I":
+                seen = set()
+            elif o[1] in seen:
+                none_again += c["probe"]["res"][o[1]] < 0
+            else:
+                seen.add(o[1])
+    extra["probe_histories"] = len(pcases)
+    extra["probe_calls_again_in_epoch_with_result_None"] = none_again
+    done = 0
+    for c, code, r in zip(pcases, codes, impl):
+        if code >= 2:
+            small = shrink_probe(c) if done < 1 else c
+            done += 1
+            if done > 3:
+                continue
+            codes2, _, impl2 = eval_probes([small], tag="c15ps")
+            failures.append({
+                "signature": core.sig(small),
+                "what": "a function memoised by utils.cached ran its body more than once for one argument tuple within "
+                        "one invalidation epoch (or returned something else than the body's result): " + describe_probe(small),
+                "replay": {"probe": small["probe"], "observed": impl2[0], "code": codes2[0]}})
+        elif code:
+            mismatches.append({"probe": c["probe"], "code": code, "observed": r})
+    return mismatches, failures, errors, extra, {"probe_histories": round(time.time() - t0, 1)}
+
+
+def swap_part(scases, only=False):
+    mismatches, failures, errors, extra = [], [], [], {}
     t0 = time.time()
-    if only is None or "swap" in only:
-        scases = [only] if only else all_swaps(rng, ctx.quick)
-        codes, serr, impl = eval_swaps(scases)
-        errors += serr
-        extra["swap_schedules"] = len(scases)
-        extra["swap_schedules_hook_fired"] = sum(r["fired"] for r in impl)
-        extra["swap_schedules_swapped_differs"] = sum(r["distinct"] for r in impl)
-        pts = {}
-        for c in scases:
-            pts[c["swap"]["point"][0]] = pts.get(c["swap"]["point"][0], 0) + 1
-        extra["swap_schedule_points"] = pts
-        done = 0
-        for c, code, r in sorted(zip(scases, codes, impl), key=lambda x: len(x[0]["swap"]["prog"])):
-            if code >= 2:
-                done += 1
-                if done > 3:
-                    continue
-                sw = c["swap"]
-                failures.append({
-                    "signature": core.sig({k: sw[k] for k in ("f0", "warm", "prog", "point")}),
-                    "what": "after a win-size-swap toggle returned, get_cell_size() is not the fresh value for the current "
-                            "setting under this schedule of two threads: " + describe_swap(c),
-                    "replay": {"swap": sw, "observed": r, "code": code}})
-            elif code:
-                mismatches.append({"swap": c["swap"], "code": code, "observed": r})
-    secs["swap_schedules"] = round(time.time() - t0, 1)
+    codes, serr, impl = eval_swaps(scases)
+    errors += serr
+    extra["swap_schedules"] = len(scases)
+    extra["swap_schedules_hook_fired"] = sum(r["fired"] for r in impl)
+    extra["swap_schedules_swapped_differs"] = sum(r["distinct"] for r in impl)
+    pts = {}
+    for c in scases:
+        pts[c["swap"]["point"][0]] = pts.get(c["swap"]["point"][0], 0) + 1
+    extra["swap_schedule_points"] = pts
+    done = 0
+    for c, code, r in sorted(zip(scases, codes, impl), key=lambda x: len(x[0]["swap"]["prog"])):
+        if code >= 2:
+            done += 1
+            if done > 3:
+                continue
+            sw = c["swap"]
+            failures.append({
+                "signature": core.sig({k: sw[k] for k in ("f0", "warm", "prog", "point")}),
+                "what": "after a win-size-swap toggle returned, get_cell_size() is not the fresh value for the current "
+                        "setting under this schedule of two threads: " + describe_swap(c),
+                "replay": {"swap": sw, "observed": r, "code": code}})
+        elif code:
+            mismatches.append({"swap": c["swap"], "code": code, "observed": r})
+    return mismatches, failures, errors, extra, {"swap_schedules": round(time.time() - t0, 1)}
+
+
+def inval_part(icases, n_full, only=False):
+    mismatches, failures, errors, extra = [], [], [], {}
     t0 = time.time()
-    if only is None or "inval" in only:
-        if only:
-            icases, n_full = [only], 0
-        else:
-            icases, n_full = all_invals(rng, ctx.quick)
-        codes, ierr, impl = eval_invals(icases)
-        errors += ierr
-        extra["inval_schedules"] = len(icases)
-        extra["inval_schedules_fully_enumerated"] = n_full
-        by_fn, overlap, noop = {}, 0, 0
-        for c, r in zip(icases, impl):
-            by_fn[c["inval"]["fn"]] = by_fn.get(c["inval"]["fn"], 0) + 1
-            inside, hit = set(), False
-            for t, was, now in r["trace"]:
-                # a thread picked while ANOTHER thread is inside the lock region of a call / in its body
-                if any(u != t for u in inside) and was in ("idle", "acq"):
-                    hit = True
-                    noop += now == "acq" and was == "acq"
-                (inside.add if now in ("held", "body", "reply", "store", "rel") else inside.discard)(t)
-            overlap += hit
-        extra["inval_schedules_by_function"] = by_fn
-        extra["inval_schedules_with_a_pick_while_another_thread_is_inside_the_lock_region"] = overlap
-        extra["inval_blocked_picks"] = noop
-        done, fns_seen = 0, set()
-        for c, code, r in sorted(zip(icases, codes, impl), key=lambda x: (len(x[0]["inval"]["progs"]), x[0]["inval"]["head"],
-                                                                          x[0]["inval"]["sched"])):
-            if code >= 2:
-                if c["inval"]["fn"] in fns_seen:     # one failing schedule per function under test
-                    continue
-                fns_seen.add(c["inval"]["fn"])
-                done += 1
-                small = shrink_inval(c) if done <= 2 and not only else c
-                codes2, _, impl2 = eval_invals([small], tag="c15is")
-                iv = small["inval"]
-                failures.append({
-                    "signature": core.sig({k: iv[k] for k in ("fn", "f0", "warm", "progs", "sched")}),
-                    "what": "a memoised value outlived an invalidation that overlapped its computation (a call made after "
-                            "enable_queries() / _invalidate_cache() had returned got a value whose body started before): "
-                            + iv["fn"] + ": " + describe_inval(small, impl2[0]["trace"]),
-                    "replay": {"inval": iv, "observed": impl2[0], "code": codes2[0]}})
-            elif code:
-                mismatches.append({"inval": c["inval"], "code": code, "observed": r})
-    secs["inval_schedules"] = round(time.time() - t0, 1)
+    codes, ierr, impl = eval_invals(icases)
+    errors += ierr
+    extra["inval_schedules"] = len(icases)
+    extra["inval_schedules_fully_enumerated"] = n_full
+    by_fn, overlap, noop = {}, 0, 0
+    for c, r in zip(icases, impl):
+        by_fn[c["inval"]["fn"]] = by_fn.get(c["inval"]["fn"], 0) + 1
+        inside, hit = set(), False
+        for t, was, now in r["trace"]:
+            # a thread picked while ANOTHER thread is inside the lock region of a call / in its body
+            if any(u != t for u in inside) and was in ("idle", "acq"):
+                hit = True
+                noop += now == "acq" and was == "acq"
+            (inside.add if now in ("held", "body", "reply", "store", "rel") else inside.discard)(t)
+        overlap += hit
+    extra["inval_schedules_by_function"] = by_fn
+    extra["inval_schedules_with_a_pick_while_another_thread_is_inside_the_lock_region"] = overlap
+    extra["inval_blocked_picks"] = noop
+    done, fns_seen = 0, set()
+    for c, code, r in sorted(zip(icases, codes, impl), key=lambda x: (len(x[0]["inval"]["progs"]), x[0]["inval"]["head"],
+                                                                      x[0]["inval"]["sched"])):
+        if code >= 2:
+            if c["inval"]["fn"] in fns_seen:     # one failing schedule per function under test
+                continue
+            fns_seen.add(c["inval"]["fn"])
+            done += 1
+            small = shrink_inval(c) if done <= 2 and not only else c
+            codes2, _, impl2 = eval_invals([small], tag="c15is")
+            iv = small["inval"]
+            failures.append({
+                "signature": core.sig({k: iv[k] for k in ("fn", "f0", "warm", "progs", "sched")}),
+                "what": "a memoised value outlived an invalidation that overlapped its computation (a call made after "
+                        "enable_queries() / _invalidate_cache() had returned got a value whose body started before): "
+                        + iv["fn"] + ": " + describe_inval(small, impl2[0]["trace"]),
+                "replay": {"inval": iv, "observed": impl2[0], "code": codes2[0]}})
+        elif code:
+            mismatches.append({"inval": c["inval"], "code": code, "observed": r})
+    return mismatches, failures, errors, extra, {"inval_schedules": round(time.time() - t0, 1)}
+
+
+def hand_part(hcases, n_full, only=False):
+    mismatches, failures, errors, extra = [], [], [], {}
+    t0 = time.time()
+    codes, herr, impl = eval_hands(hcases)
+    errors += herr
+    extra["handover_schedules"] = len(hcases)
+    extra["handover_schedules_fully_enumerated"] = n_full
+    by_kind, between, oos, getters = {}, 0, 0, 0
+    for c, r in zip(hcases, impl):
+        hd = c["hand"]
+        by_kind[hd["kind"]] = by_kind.get(hd["kind"], 0) + 1
+        starters = {t for t, p in enumerate(hd["progs"]) if any(x[0] == "S" for x in p)}
+        mid, waiting, stale, hit, late = set(), set(), set(), False, False
+        for t, was, now in r["trace"]:
+            if t in starters:
+                if was == "getlock":          # the lock global is rebound during this pick
+                    stale |= waiting
+                (mid.add if now in ("held", "copy", "copied", "getlock", "rel") else mid.discard)(t)
+                continue
+            # another thread picked while a start is between its acquisition and its release
+            hit = hit or (bool(mid) and was != "done")
+            # ... a thread that evaluated the OLD lock before the rebinding and acquires it afterwards
+            late = late or (t in stale and was == "acq" and now == "held")
+            (waiting.add if now == "acq" else waiting.discard)(t)
+            if now in ("idle", "done"):
+                stale.discard(t)
+        between += hit
+        oos += late
+        getters += any(x[0] == "G" for p in hd["progs"] for x in p)
+    extra["handover_schedules_by_kind"] = by_kind
+    extra["handover_schedules_with_a_pick_while_a_start_is_inside_its_lock_region"] = between
+    extra["handover_schedules_with_a_thread_acquiring_the_old_lock_after_the_rebinding"] = oos
+    extra["handover_schedules_with_get_cell_size"] = getters
+    done, kinds_seen = 0, set()
+    for c, code, r in sorted(zip(hcases, codes, impl), key=lambda x: (len(x[0]["hand"]["progs"]), x[0]["hand"]["head"],
+                                                                      x[0]["hand"]["sched"])):
+        if code >= 2:
+            if c["hand"]["kind"] in kinds_seen:     # one failing schedule per kind of invalidator
+                continue
+            kinds_seen.add(c["hand"]["kind"])
+            done += 1
+            small = shrink_hand(c) if not only else c
+            codes2, _, impl2 = eval_hands([small], tag="c15hs")
+            hd = small["hand"]
+            failures.append({
+                "signature": core.sig({k: hd[k] for k in ("kind", "f0", "warm", "progs", "sched")}),
+                "what": "a cell size computed under the previous setting survived: after all threads have finished (every "
+                        "toggle / enable_queries() has returned) get_cell_size() is not the fresh value for the current "
+                        "setting under this schedule with the cache hand-over of Process.start(): "
+                        + describe_hand(small, impl2[0]["trace"]),
+                "replay": {"hand": hd, "observed": impl2[0], "code": codes2[0]}})
+        elif code:
+            mismatches.append({"hand": c["hand"], "code": code, "observed": r})
+    return mismatches, failures, errors, extra, {"handover_schedules": round(time.time() - t0, 1)}
+
+
+def run_parts(parts):
+    """the parts beside the histories, concurrently -> (mismatches, failures, errors, extra)"""
+    jobs = []
+    if "probe" in parts:
+        jobs.append(lambda: probe_part(parts["probe"], parts.get("only", False)))
+    if "swap" in parts:
+        jobs.append(lambda: swap_part(parts["swap"], parts.get("only", False)))
+    if "inval" in parts:
+        jobs.append(lambda: inval_part(*parts["inval"], parts.get("only", False)))
+    if "hand" in parts:
+        jobs.append(lambda: hand_part(*parts["hand"], parts.get("only", False)))
+    mismatches, failures, errors, extra = [], [], [], {"seconds": {}}
+    with ThreadPoolExecutor(max_workers=max(1, len(jobs))) as ex:
+        for m, f, e, x, secs in ex.map(lambda j: j(), jobs):
+            mismatches += m
+            failures += f
+            errors += e
+            extra.update(x)
+            extra["seconds"].update(secs)
     return mismatches, failures, errors, extra
 
 
 def run(ctx):
     rng = ctx.rng
-    if ctx.replay and any(k in ctx.replay["replay"] for k in ("probe", "swap", "inval")):
+    if ctx.replay and any(k in ctx.replay["replay"] for k in ("probe", "swap", "inval", "hand")):
         rc = ctx.replay["replay"]
-        only = {"probe": rc["probe"]} if "probe" in rc else {"swap": rc["swap"]} if "swap" in rc else {"inval": rc["inval"]}
-        mismatches, failures, errors, extra = run_probes_and_swaps(ctx, rng, only)
-        return {"corr_name": "replay of a probe history / swap schedule / invalidation schedule", "evaluations": 1,
-                "distinct_nontrivial": 1, "rule": "replay",
-                "samples": [describe_probe(only) if "probe" in only else describe_swap(only) if "swap" in only
-                            else describe_inval(only)],
+        kind = next(k for k in ("probe", "swap", "inval", "hand") if k in rc)
+        only = {kind: rc[kind]}
+        parts = {"only": True, kind: ([only], 0) if kind in ("inval", "hand") else [only]}
+        mismatches, failures, errors, extra = run_parts(parts)
+        return {"corr_name": "replay of a probe history / swap schedule / invalidation schedule / hand-over schedule",
+                "evaluations": 1, "distinct_nontrivial": 1, "rule": "replay",
+                "samples": [{"probe": describe_probe, "swap": describe_swap, "inval": describe_inval,
+                             "hand": describe_hand}[kind](only)],
                 "histogram": {}, "mismatches": mismatches, "failures": failures, "errors": errors,
                 "assumptions": [], "trusted": [], "extra": extra}
+    races, parts, n_real = [], {}, 0
     if ctx.replay:
         cases = [ctx.replay["replay"]["case"]]
     else:
+        # (all cases are generated first, in a fixed order from the one random source; the parts are then evaluated
+        # concurrently)
         n = 420 if ctx.quick else 6000
         cases = copy.deepcopy(CORPUS) + [gen_abort_case(rng) if i % 4 == 1 else gen_tsr_case(rng) if i % 8 == 3
                                          else gen_case(rng, 20 if i % 4 else 8) for i in range(n)]
+        races = gen_races(rng, ctx.quick)
+        parts = gen_parts(rng, ctx.quick)
+        reals = copy.deepcopy(REAL_CORPUS) + [gen_real_case(rng, i) for i in range(70 if ctx.quick else 1500)]
+        n_real = len(reals)
+        cases += reals
     t_start = time.time()
-    codes, side, errors, impl = evaluate(cases)
+    pool = ThreadPoolExecutor(max_workers=4)
+    f_races = pool.submit(run_races, races) if races else None
+    f_parts = pool.submit(run_parts, parts) if parts else None
+    impl = core.run_impl_parallel("impl_c15.py", cases)
+    f_fresh = None
+    if not ctx.replay:
+        # fresh computations in new interpreters (final states of the first histories)
+        fcs = fresh_cases(cases, impl, 24 if ctx.quick else 400)
+        f_fresh = pool.submit(lambda: (run_fresh(fcs), time.time()))
+    codes, side, errors, impl = evaluate(cases, impl=impl)
     t_hist = time.time() - t_start
     mismatches, failures = [], []
     hist = {"ops_len": {}, "op_kinds": {}, "caps": {}, "side_condition_holds": sum(side),
             "side_condition_broken_on_purpose": len(cases) - sum(side), "none_cell_size_answers": 0,
             "cache_hits": 0, "recomputations": 0, "armed_calls_raised": 0, "armed_calls_returned": 0,
             "get_after_aborted_get_same_size": 0, "probe_resized_in_body": 0, "probe_armed_resize_not_run(hit)": 0,
-            "probe_call_right_after_resize_in_body": 0, "probe_call_after_resize_in_body_other_px": 0}
+            "probe_call_right_after_resize_in_body": 0, "probe_call_after_resize_in_body_other_px": 0,
+            "real_terminal": {"histories": 0, "start_env": {}, "env_changes_in_history": 0,
+                              "getter_calls_while_a_usable_COLUMNS_or_LINES_differs_from_the_window": 0,
+                              "histories_with_such_a_call": 0, "window_resizes": 0}}
     distinct = set()
+
+    def usable(v):
+        try:
+            return int(v) if int(v) > 0 else None
+        except (TypeError, ValueError):
+            return None
+
+    def env_class(v, n):
+        return "absent" if v is None else "unusable" if usable(v) is None else "equal" if usable(v) == n else "different"
+
     for c, r in zip(cases, impl):
+        if c.get("real") is not None:
+            hr = hist["real_terminal"]
+            hr["histories"] += 1
+            pe, win, stale = [c["real"].get("COLUMNS"), c["real"].get("LINES")], list(c["t0"][:2]), 0
+            k = "COLUMNS %s, LINES %s" % (env_class(pe[0], win[0]), env_class(pe[1], win[1]))
+            hr["start_env"][k] = hr["start_env"].get(k, 0) + 1
+            n_ts = 0
+            for o, row in zip(c["ops"], r["rows"]):
+                if o[0] == "ENV":
+                    pe = [o[1], o[2]]
+                    hr["env_changes_in_history"] += 1
+                elif o[0] in ("CS", "CR", "TS", "TSR", "CSA", "CRA"):
+                    stale += any(usable(v) is not None and usable(v) != n for v, n in zip(pe, win))
+                if o[0] == "R" or (o[0] == "TSR" and row["n"][3] != n_ts):   # (a resize armed in the probe's body lands iff the body runs)
+                    win = list(o[1:3])
+                    hr["window_resizes"] += 1
+                n_ts = row["n"][3]
+            hr["getter_calls_while_a_usable_COLUMNS_or_LINES_differs_from_the_window"] += stale
+            hr["histories_with_such_a_call"] += stale > 0
         L = len(c["ops"])
         hist["ops_len"][L // 5 * 5] = hist["ops_len"].get(L // 5 * 5, 0) + 1
         e = c["env"]
@@ -1058,8 +1499,11 @@ def run(ctx):
             small = shrink(cases[i]) if len(failures) < 2 else cases[i]
             codes2, _, _, impl2 = evaluate([small], tag="c15r")
             env = {k: small["env"][k] for k in ("tty", "io", "xc", "xa", "xtname", "envname", "fg", "bg")}
+            sig = {"env": env, "t0": small["t0"], "ops": small["ops"]}
+            if small.get("real") is not None:
+                sig["real"] = small["real"]
             failures.append({
-                "signature": core.sig({"env": env, "t0": small["t0"], "ops": small["ops"]}),
+                "signature": core.sig(sig),
                 "what": "a cached terminal fact outlived its condition (observed value differs from a fresh computation "
                         "for the current terminal and settings): " + describe(small),
                 "replay": {"case": small, "observed": impl2[0], "code": codes2[0]},
@@ -1069,17 +1513,14 @@ def run(ctx):
     extra = {}
     if not ctx.replay:
         # fresh computations in new interpreters
-        t1 = time.time()
-        fcs = fresh_cases(cases, impl, 24 if ctx.quick else 400)
-        fbad, ferr, fres = run_fresh(fcs)
-        t_fresh = time.time() - t1
-        t1 = time.time()
+        (fbad, ferr, fres), t_end = f_fresh.result()
+        t_fresh = t_end - t_start
         errors += ferr
         for idx, _ in fbad:
             mismatches.append({"new_interpreter_fresh": fcs[idx], "observed": fres[idx]})
         extra["fresh_in_new_interpreter"] = len(fcs)
         # thread races
-        races, rres, rbad, rerr = run_races(rng, ctx.quick)
+        races, rres, rbad, rerr = f_races.result()
         errors += rerr
         for idx, code in rbad:
             item = {"race": {k: races[idx][k] for k in ("threads", "fn")}, "observed": rres[idx], "code": code}
@@ -1091,15 +1532,17 @@ def run(ctx):
             else:
                 mismatches.append(item)
         extra["thread_races"] = len(races)
-        t_races = time.time() - t1
-        # sequential histories of a probe under the real utils.cached; swap toggles scheduled against get_cell_size
-        m2, f2, e2, x2 = run_probes_and_swaps(ctx, rng)
+        # sequential histories of a probe under the real utils.cached; swap toggles scheduled against get_cell_size;
+        # memoised calls against invalidations; the cache hand-over of Process.start()
+        m2, f2, e2, x2 = f_parts.result()
         mismatches += m2
         failures += f2
         errors += e2
         extra.update(x2)
-        extra["seconds"].update({"histories": round(t_hist, 1), "fresh_in_new_interpreters": round(t_fresh, 1),
-                                 "thread_races": round(t_races, 1)})
+        extra["real_terminal_histories"] = n_real
+        extra["seconds"].update({"histories(impl+coq)": round(t_hist, 1), "fresh_in_new_interpreters(done at)": round(t_fresh, 1),
+                                 "all_parts_concurrently": round(time.time() - t_start, 1)})
+    pool.shutdown()
     return {
         "corr_name": "Caches.trace (model) == real term_image getters/toggles over a scripted terminal; "
                      "Caches.spec_trace (fresh computations under provenance) == observed",
